@@ -8,6 +8,7 @@ package pool
 import (
 	"context"
 	"fmt"
+	"math"
 	"strings"
 	"sync"
 	"testing"
@@ -41,7 +42,7 @@ type c19Scenario struct {
 
 func c19Gen(t *rapid.T) c19Scenario {
 	sc := c19Scenario{
-		MaxConnsPerKey: rapid.SampledFrom([]int{1, 1, 1, 2, 2, 2, 0, -1}).Draw(t, "max_conns"), // 0: nothing is kept; -1: a value that cannot be meant (conn_max_idle_count is not range-checked)
+		MaxConnsPerKey: rapid.SampledFrom([]int{1, 1, 1, 2, 2, 2, 0, -1, 1 << 50, math.MaxInt}).Draw(t, "max_conns"), // 0: nothing is kept; -1 and the huge ones: values that cannot be meant (conn_max_idle_count is not range-checked)
 		LifetimeSec:    rapid.SampledFrom([]int{2, 2, 5, 30}).Draw(t, "lifetime"),
 		StaleSec:       rapid.SampledFrom([]int{2, 5, 30}).Draw(t, "stale"),
 		MaxKeys:        rapid.IntRange(1, 2).Draw(t, "max_keys"),
@@ -370,7 +371,7 @@ func c19Explore(sc c19Scenario) (vs []ev.V) {
 func TestVerifC19(t *testing.T) {
 	c19T = t
 	r := c19Rec
-	r.Rule("Scenario = pool with MaxConnsPerKey 1-2, idle lifetime and stale-key lifetime in {2,5,30} s, MaxKeys 1-2; 2-8 workers each doing 1-3 operations from {get/hold 0-6 s/return or close, CleanUp sweep, " +
+	r.Rule("Scenario = pool with MaxConnsPerKey 1-2 (and 0, -1, 2^50, MaxInt: the directive is not range-checked), idle lifetime and stale-key lifetime in {2,5,30} s, MaxKeys 1-2; 2-8 workers each doing 1-3 operations from {get/hold 0-6 s/return or close, CleanUp sweep, " +
 		"sleep 1-61 s} on 1-3 keys; one Close after 0-200 s; the pool's own minute ticker runs on the virtual clock. pool.go is rewritten so that verifkit/vsched owns its mutex, channel, timer and go " +
 		"operations; for every scenario all schedules with at most 2 deviations from the default scheduler are enumerated up to a cap (beyond it two-deviation schedules are thinned with a fixed stride). " +
 		"Oracle (instrumented connections): at most one owner; never handed out after Close of the connection, after LastUseAt+lifetime, or after the pool was shut down; nothing closed twice; every " +
